@@ -392,15 +392,21 @@ NOT_YET = {}
 
 # additions of the sixth session (DESIGN 10.8), appended to the texts above
 LATER = {
+    "C03": " Alias calls nested up to 24 (thorough: 80) deep with a well-formed / faulty / ill-typed / unclosed innermost argument, one and two functions behind the alias: answered within the time limit.",
+    "C04": " Redeclaration at the sites that are not block statements (for-each index named like the loop variable, two fields of one name, two parameters of one name) and elements of lists of a wrong element type as arguments for Referenz parameters, each with its well-formed counterpart.",
+    "C06": " Every access form also with an index of type Byte (0, 1, n, n+1, 255).",
+    "C09": " A third of the value parameters of the generated overload families are declared with an alias of their type.",
+    "C16": " One generic function instantiated by 1 / 2 / 4 other modules and by its own with types for which its body resolves to different overloads: eight builds at -O 2 against one at -O 0.",
+    "C18": " A foreign call inside the arguments of a foreign call, for nine non-primitive kinds, against the same calls made one after the other (output and ledger).",
     "C02": " Generic Kombinationen / functions of one module instantiated with types their module cannot see (declared by the importer or by a sibling module imported before / after), six uses, modules linked and kept apart: accepted implies compiled.",
     "C05": " Every call / return row of the aliasing matrix (incl. a function returning its own unchanged value parameter, recursion handing a value parameter to the function's own Referenz parameter) runs under the ledger at -O 2 in every tier: at that level parameters judged constant are only borrowed.",
     "C07": " The range monitor also looks at the diagnostics wrapped inside delivered ones (failed generic instantiations); corpus families: an error behind letters of 2-4 bytes on the same line, two errors in one statement at top level and inside blocks (120 programs), errors at every place of a generic body.",
     "C08": " The annotator behind the -O 2 elision (a value parameter flagged constant gets the caller's storage) is modelled (DDP.ConstParam) and its flags are PROVED sound for every module: a flagged parameter is not changed by assignment, through Referenz parameters of any callee (earlier, later, itself, C), or through further hand-overs (theorem sound; old_rule_unsound is the pre-repair defect with its witness); tie: flags of the real annotator on generated modules vs the model. Rows for recursion (a value parameter handed to the function's own Referenz parameter) and for returning an unchanged value parameter (argument local / global / temporary).",
     "C10": " Module paths that differ only in `/` against `_` (pkg/ap/ad.ddp, pkg/ap_ad.ddp) and a module file next to a directory of the same stem occur in the generated graphs.",
     "C12": " For-each loops over a Text whose body assigns the loop variable a letter of another encoded width (32 programs, judged by the L2 evaluator).",
-    "C14": " Behind instantiations of a generic Kombination: declarations (by literal and by default value) are judged separately from the statement under test.",
+    "C14": " Both list literal forms (`n Mal x`, `eine Liste, die aus … besteht`) are positions of the pair matrix. Behind instantiations of a generic Kombination: declarations (by literal and by default value) are judged separately from the statement under test.",
     "C15": " Effect programs: one generic function over an overloaded callee that reads for one type and changes through a Referenz for another, both instantiation orders, caller local / global, generic text against hand-specialised text at -O 0/1/2.",
-    "C19": " List literals of both forms (`n Mal w`, `eine Liste, die aus … besteht`) for nine element values incl. all-zero ones and five lengths, after heap churn, at -O 0/1/2.",
+    "C19": " Buchstaben literals of every plane (six per plane) printed. List literals of both forms (`n Mal w`, `eine Liste, die aus … besteht`) for nine element values incl. all-zero ones and five lengths, after heap churn, at -O 0/1/2.",
     "C20": " Aliases used by the body of a generic function instantiated elsewhere: helper generic / plain, private / public, declared before / after, pattern extending or prefixing an imported alias, import whole / by name.",
 }
 
